@@ -6,8 +6,9 @@ class Band(scen.Follower):
     """Humans who may ring late, early within the row (when their place is up to `ahead` places away),
     and sometimes double-click (ringing the next stroke early)."""
 
-    def __init__(self, s, bells, rng, late, ahead, double_p, scripted_lead=None):
+    def __init__(self, s, bells, rng, late, ahead, double_p, scripted_lead=None, second=None):
         self.scripted_lead = scripted_lead      # this bell's row-0 strike is scripted in the scenario
+        self.second = second                    # (time of the second Look To, bell, lag): that bell is late in its first row
         self.rng = rng
         self.late = late
         self.ahead = ahead
@@ -20,12 +21,14 @@ class Band(scen.Follower):
             row = bot._row
             for q in range(bot._place, min(len(row), bot._place + 1 + self.ahead)):
                 bell = row[q].number
-                key = (bot._row_number, q, id(row))
+                key = (bot._row_number, q, id(row), self.second is not None and t >= self.second[0])
                 if bell in self.bells and key not in self.done:
                     self.done.add(key)
                     if bell == self.scripted_lead and bot._row_number == 0:
                         continue
                     lag = self.rng.choice(self.late)
+                    if self.second is not None and t >= self.second[0] and bot._row_number == 0 and bell == self.second[1]:
+                        lag = self.second[2]
                     s.push(t + lag, "internal", lambda tt, b=bell: s.human_strike(tt, b))
                     if self.rng.random() < self.double_p:
                         s.push(t + lag + 0.15, "internal", lambda tt, b=bell: s.human_strike(tt, b))
@@ -69,6 +72,9 @@ class C09(scen.WorldProp):
             end = t0 + 3 + 14 * I * (N + 1) + 6
             style = rng.choice(["late", "late", "mixed", "early", "erratic"])
             lead = None
+            if rng.random() < 0.15:
+                yield self.second_touch_case(rng, N, humans, spec, ps, udi)
+                continue
             if stage == N and rng.random() < 0.2:
                 # a human leads and pulls off late; meanwhile Look To is called again
                 lead = 1
@@ -90,10 +96,44 @@ class C09(scen.WorldProp):
             yield {"k": "world", "scenario": sc, "humans": humans, "style": style, "seed": rng.getrandbits(32),
                    "lead": lead}
 
+    def second_touch_case(self, rng, N, humans, spec, ps, udi):
+        """Two touches in one session.  The first is stood; afterwards one human bell strikes once more
+        (a handstroke that belongs to no row), the bells are set at hand and Look To is called again.  In
+        the first row of the second touch that ringer is late: Wheatley must wait for them all the same."""
+        I = scen.interval(ps, N)
+        row_t = I * (N + 1)
+        t0 = 1000.0 + rng.random()
+        events = [call(t0, LOOK_TO)]
+        if not udi:
+            events.append(call(t0 + 3 + rng.uniform(0.5, 2) * row_t, GO))
+        t_stand = t0 + 3 + rng.uniform(3, 6) * row_t
+        events.append(call(t_stand, scen.STAND))
+        # the humans of this scenario are at most 0.3 s late per blow: the touch is over well before this
+        t_over = t_stand + 3 * row_t + 0.3 * 3 * N + 1.0
+        h = rng.choice(humans)
+        overshoot = rng.random() < 0.8
+        if overshoot:
+            events.append([t_over, "strike", h])
+        t1 = t_over + 1.0 + rng.random()
+        events.append([t1 - 0.2, "msg", {"m": "global_state", "state": [True] * N}])
+        events.append(call(t1, LOOK_TO))
+        if not udi:
+            events.append(call(t1 + 3 + rng.uniform(0.5, 2) * row_t, GO))
+        lag = rng.choice([0.4, 1.2, 3.0])
+        end = t1 + 3 + lag + 7 * row_t + 0.3 * 7 * N
+        sc = {"start": 1000.0, "end": end, "tower_size": N, "events": events,
+              "on_join": scen.humans_on_join(humans),
+              "bot": scen.bot_cfg(spec, up_down_in=udi),
+              "rhythm": scen.rhythm_cfg("wait", inertia=rng.choice([0.0, 0.5, 1.0]), peal_speed=ps)}
+        return {"k": "world", "scenario": sc, "humans": humans, "style": "second", "seed": rng.getrandbits(32),
+                "lead": None, "second": [t1, h, lag], "t_over": t_over}
+
     def agents(self, req):
         import random
         rng = random.Random(req["seed"])
         style = req["style"]
+        if style == "second":
+            return lambda s: [Band(s, req["humans"], rng, [0.0, 0.02, 0.3], 0, 0.0, None, req["second"])]
         late = {"late": [0.0, 0.02, 0.3, 1.5], "mixed": [0.0, 0.0, 0.05, 0.4], "early": [0.0, 0.01],
                 "erratic": [0.0, 0.003, 0.011, 0.2, 2.5]}[style]
         ahead = {"late": 0, "mixed": 1, "early": 4, "erratic": 2}[style]
@@ -109,6 +149,20 @@ class C09(scen.WorldProp):
             return f"crash: main={reply['crashed']} handlers={reply['handler_crashes']}"
         N = sc["tower_size"]
         humans = set(req["humans"])
+        if req.get("second"):
+            # each touch is judged on its own: strike counts restart when the bells have been set at hand
+            t1, t_over = req["second"][0], req["t_over"]
+            first = self.judge(N, humans, [x for x in reply["obs"] if scen.b2f(x[0]) < t_over],
+                               [x for x in reply["strikes"] if scen.b2f(x[0]) < t_over])
+            if first:
+                return "first touch: " + first
+            second = self.judge(N, humans, [x for x in reply["obs"] if scen.b2f(x[0]) >= t1 - 0.1],
+                                [x for x in reply["strikes"] if scen.b2f(x[0]) >= t1 - 0.1])
+            return "second touch: " + second if second else None
+        return self.judge(N, humans, reply["obs"], reply["strikes"])
+
+    def judge(self, N, humans, obs, all_strikes):
+        reply = {"obs": obs, "strikes": all_strikes}
         # the order in which Wheatley processed events: its own strikes and the human strikes it heard
         # rows as Wheatley saw them: from r_expect (human places) and its own strikes (remaining places)
         expects = {}
